@@ -114,6 +114,36 @@ func (f *fuzzer) one(family, text string) {
 	f.g.emit(fmt.Sprintf("F fam=%s text=%s %s", family, hx(text), runesLine(text)), fmt.Sprintf("%s %s %s", syn, out[0], out[1]))
 }
 
+func hostileTimeBindings(r *rng) string {
+	first := []string{`?s ?p ?o`, `?s "p"@[] ?o`, `?s ?p ?o . ?o ?q ?z`, `?s "q"@[?t] ?o`, `?s ?p ?o . optional { ?s "q"@[] ?z }`,
+		`?s ?p ?o . optional { ?o "p"@[?t] ?z }`, `/u<a> ?p ?o`, `?s ?p "1"^^type:int64 . ?s ?q ?o`}[r.intn(8)]
+	names := []string{"?s", "?p", "?o", "?z", "?t", "?q", "?nowhere"}
+	pick := func() string {
+		if r.chance(1, 4) {
+			return ""
+		}
+		return names[r.intn(len(names))]
+	}
+	id := []string{"p", "q"}[r.intn(2)]
+	var last string
+	switch r.intn(5) {
+	case 0:
+		last = fmt.Sprintf(`?x "%s"@[%s] ?y`, id, names[r.intn(len(names))])
+	case 1:
+		last = fmt.Sprintf(`?x ?w "%s"@[%s]`, id, names[r.intn(len(names))])
+	case 2:
+		last = fmt.Sprintf(`?x ?w "%s"@[%s,%s]`, id, pick(), pick())
+	default:
+		last = fmt.Sprintf(`?x "%s"@[%s,%s] ?y`, id, pick(), pick())
+	}
+	if r.chance(1, 4) {
+		last = "optional { " + last + " }"
+	}
+	tail := []string{"", "", " before " + fmtT(qt1), " after " + fmtT(qt1), " between " + fmtT(qt0) + ", " + fmtT(qt2),
+		" before " + fmtT(qt0), " after " + fmtT(qt2)}[r.intn(7)]
+	return fmt.Sprintf("select ?s, ?x from %s where { %s . %s }%s;", []string{"?a", "?g", "?a, ?b"}[r.intn(3)], first, last, tail)
+}
+
 func mutateBytes(r *rng, s string) string {
 	if len(s) == 0 {
 		return s
@@ -249,6 +279,12 @@ func cmdFuzz(args []string) error {
 		} else {
 			valid = append(valid, sg.statement())
 		}
+	}
+	// legal statements whose time positions ("id"@[?x], "id"@[?lo,?hi]) name bindings that earlier clauses
+	// resolve to nodes, literals, predicates or (after an unmatched OPTIONAL) nothing, with and without
+	// global bounds: the engine owes an error or a table, whatever the binding holds
+	for i := 0; i < *n/2+8; i++ {
+		valid = append(valid, hostileTimeBindings(r))
 	}
 	valid = append(valid, `show graphs;`, `select ?s from ?a where {?s "p"@[] ?o . filter latest(?o)};`,
 		`select ?s from ?zz where {?s ?p ?o};`, `select sum(?o) as ?t from ?a where {?s "q"@[] ?o};`,
